@@ -106,3 +106,15 @@ CLAIMS["C08"] = dict(
     text="For three base trees and every single change of the menu (default literal / condition, range, dependency, option added / removed, prompt removed / conditioned, promptless default, set default source, choice default / members, upstream default; and no change), every sdkconfig the tool writes under the old tree in a configuration reachable by <=2 operations is loaded into the new tree under policy sdkconfig and kconfig and followed by every edit history of <=2 (quick) / 3 (thorough) operations: values, visibilities and the re-written file must equal those obtained from the file without its default-marked entries on the new tree (policy kconfig / unchanged tree) or on the new tree with the stored values written as the options' own defaults (policy sdkconfig); unmarked entries must be user values after load; the mismatch records must name exactly the visible options / choices whose stored default differs.",
     note="T_new' is computed by patching one option at a time in definition order (trees define options after their dependencies); retyping an option is outside the statement's menu of changes.",
 )
+CLAIMS["C16"] = dict(
+    category="model_checking",
+    technique="explicit-state BFS over UI action histories on a headless harness that runs the REAL MenuConfigState / MenuConfigApp glue (dialog answers are explorer choices); file-vs-needs_save oracle; conformance replay of explored traces through Textual's Pilot on the real app",
+    text="For 6 trees x 9-12 initial sdkconfig kinds (absent, tool-written at default / elsewhere, hand-edited with unknown, duplicate, partial, stale-default, deprecated entries, IDF_TARGET headers) every history of compound UI actions up to depth 4 (quick) / 5 (thorough) (select row + Enter/Space/y/n/r[+confirm]/typed value, leave, show-all, jump-to, load file [+confirm], save, quit [+answer]) is replayed on a fresh harness; in every state: needs_save()==False implies the bytes on disk equal what saving would write; right after a successful save and after (re)loading a tool-written file needs_save() is False. 5/100 explored traces are replayed key by key through Pilot on the real Textual app and must match the headless run (menu, rows, highlight, values, needs_save).",
+    note="Screen stack, query_one, notify/exit and OptionList storage are stand-ins (validated by the Pilot replay); y/n on plain bools omitted in quick (same path as Space).",
+)
+CLAIMS["C17"] = dict(
+    category="model_checking",
+    technique="explicit-state BFS over UI action histories (same headless harness as C16) plus a sweep of malformed typed values from every expanded state; model-consistency oracles after every action; Pilot conformance replay",
+    text="For trees with menus whose conditions mention outside options, menuconfig options with children, implicit sub-menus, a named choice defined twice, empty menus, comments, options locked by select and by set, ranges with symbol bounds that can be empty: every action history up to depth 4/5 plus every value of the malformed int/hex/float lists typed as the last action from every expanded state. After every action: no exception; 0 <= sel_node_i < len(shown) and shown == shown_nodes(cur_menu); the list widget rows equal the model rows; leave_menu lands on the left menu's row; a toggle applies only a member of the pre-action assignable set; options forced by set or locked to y keep their value; a value the validator accepts is the value the option then denotes.",
+    note="Trees whose visible-if / depends mention an option inside the same menu are rejected by the parser as dependency loops and counted as skipped.",
+)
